@@ -242,7 +242,11 @@ def flatten(x, prefix=''):
             out += flatten(v, '%s[%d]' % (prefix, i))
     elif dataclasses.is_dataclass(x):
         for f in dataclasses.fields(x):
-            out += flatten(getattr(x, f.name), '%s.%s' % (prefix, f.name) if prefix else f.name)
+            try:
+                v = getattr(x, f.name)
+            except AttributeError:        # an object created without its constructor (recording stubs): the field is not set
+                continue
+            out += flatten(v, '%s.%s' % (prefix, f.name) if prefix else f.name)
     elif x is None:
         pass
     else:
